@@ -3,6 +3,8 @@
 
 package network
 
+import "sync"
+
 // Accessors for the verification harness (property C20); compiled only with
 // the build tag "verif".
 
@@ -14,4 +16,19 @@ func VerifGetListenAddress(addr Address, listenAddr string) (string, error) {
 // VerifValidHostname exposes validHostname.
 func VerifValidHostname(s string) bool {
 	return validHostname(s)
+}
+
+var verifLookupMu sync.Mutex
+
+// VerifWithLookupHost runs f with the package's DNS lookup function (used by
+// Address.Resolve, and through it by NetworkAddressResolved and Public)
+// replaced by lookup. Calls are serialised: lookupHost is a package-level
+// variable.
+func VerifWithLookupHost(lookup func(host string) ([]string, error), f func()) {
+	verifLookupMu.Lock()
+	defer verifLookupMu.Unlock()
+	old := lookupHost
+	lookupHost = lookup
+	defer func() { lookupHost = old }()
+	f()
 }
